@@ -16,6 +16,7 @@ TRUSTED = {
     "tobe/tole": "int.to_bytes(n): length n; inverse of from_bytes on [0,256**n); bytes are 0..255",
     "ipow": "b**e for e>=0: b**0=1, b**(e+1)=b*b**e, positivity/monotonicity for b>=2",
     "idiv/imod": "a // b and a % b for b > 0: a == b*(a//b) + a%b, 0 <= a%b < b",
+    "bitops": "x ^ y, x | y, x & y of non-negative ints below 2**k are non-negative and below 2**k; x ^ 0 == x; ^ commutes",
     "bitlen": "int.bit_length: x=0 -> 0; x>0 -> 2**(bl-1) <= x < 2**bl",
     "hash": "sha256/sha512/ripemd160/hmac-sha512 are uninterpreted; only the digest length is assumed",
     "bjoin": "b''.join: join([])=b'', join(xs+[x])=join(xs)+x, join([x])=x",
@@ -90,6 +91,7 @@ class Axioms:
         self.used = set()
         self.extra_rules = []  # callables(term) -> list of instances (spec unfoldings, lemmas)
         self.pows = {}
+        self.no_concat_law = False
         self.own_quants = {}
         self.lstrips = []
         self.breps = []
@@ -167,7 +169,7 @@ class Axioms:
                     out.append(z3.Implies(n >= 1, z3.And(b[n - 1] * pow_term(256, n - 1) <= t,
                                                          t < (b[n - 1] + 1) * pow_term(256, n - 1))))
                 # concat law
-                if z3.is_app_of(b, z3.Z3_OP_SEQ_CONCAT):
+                if z3.is_app_of(b, z3.Z3_OP_SEQ_CONCAT) and not self.no_concat_law:
                     parts = b.children()
                     head, rest = parts[0], parts[1:]
                     restt = rest[0] if len(rest) == 1 else z3.Concat(*rest)
@@ -247,6 +249,15 @@ class Axioms:
                 out.append(z3.Implies(z3.And(b > 0, a >= 0), z3.And(q >= 0, q <= a)))
                 out.append(z3.Implies(z3.And(b > 0, a >= 0, a < b), z3.And(q == 0, r == a)))
                 out.append(z3.Implies(b == 1, z3.And(q == a, r == 0)))
+            elif name in ("bitxor", "bitor", "bitand"):
+                self.used.add("bitops")
+                a, b = ch
+                for k in (8, 32, 64, 256):
+                    out.append(z3.Implies(z3.And(a >= 0, a < 2 ** k, b >= 0, b < 2 ** k), z3.And(t >= 0, t < 2 ** k)))
+                if name == "bitxor":
+                    out.append(z3.Implies(b == 0, t == a))
+                    out.append(z3.Implies(a == 0, t == b))
+                    out.append(t == sym.F_bitxor(b, a))
             elif name == "bitlen":
                 self.used.add("bitlen")
                 x = ch[0]
